@@ -21,7 +21,7 @@ RULE = ('seeded random histories over 1-12 members (+ up to 3 spare endpoints): 
         'profiles (load-up, drain-the-least-loaded-member-to-idle [the F3 pattern], channel flapping incl. faults, '
         'join/leave churn, steady), completion by reply/error/timeout/direct context call, second completions, random '
         'randint outcomes, initial channel state Open/Idle/Closed, 15% on ApertureBalancerSink with all members active; '
-        'every history ends in a saturating burst; plus (thorough) every length-7 sequence over a 4-letter alphabet on 4 members; '
+        'every history ends in a saturating burst; plus (thorough) every length-6 sequence over a 4-letter alphabet on 4 members; '
         'non-trivial = at least 3 requests were dispatched; distinct by canonical JSON of (case, observation)')
 TRUSTED = ['mock channel sinks / server-set provider / scripted random of harness/c03_balancer_driver.py',
            'reference counters of the monitor (analyse) in the same file']
@@ -53,7 +53,7 @@ stats = D.stats
 def gen_cases(tier, seed):
   out = D.gen_cases(PID, tier, seed, 260, 5000)
   if tier == 'thorough':
-    out += D.gen_exhaustive(7, 4)
+    out += D.gen_exhaustive(6, 4)
   return out
 
 
